@@ -5,7 +5,7 @@ idx = json.load(open('/verif/seeded/INDEX.json'))
 res = {}
 for f in sys.argv[1:]:
     for l in open(f):
-        m = re.match(r'^(\S+) vs (\S+): rc=(\d+) violations=(\d+) machinery=(\d+) :: (.*)$', l.strip())
+        m = re.match(r'^(\S+) vs (\S+): rc=(\d+) violations=(\d+) machinery=(\d+) ::\s*(.*)$', l.strip())
         if not m:
             continue
         seed, prop, rc, v, mach, rest = m.groups()
